@@ -11,13 +11,17 @@ LEVEL = 'proof'
 RULE = ('corpus; exhaustive boolean scope (all 3x4 images x 3x3 elements, also 1xn/nx1/2x2; quick = seeded slice); '
         'get_structuring_elem on rank 1-4 arrays: None, a grid of ints (negative, zero, translate_sizes keys, huge), arrays of '
         'equal/other rank, zero-length axes, other dtypes/layouts; erode/dilate called with None/int arguments; '
-        'random 1-3 D x 9 integer dtypes x 7 layouts x elements (odd/even, empty, larger than the image, non-flat, '
-        'dtype-minimum entries) with values dense at the dtype limits. Non-trivial = result differs from the input '
+        'random 1-3 D x 9 integer dtypes x 7 layouts x elements (odd/even, empty, larger than the image, non-flat, pyramids = '
+        'height-monotone towards the centre, dtype-minimum entries) with values dense at the dtype limits; a size-threshold '
+        'stream (1x65537, 257x256, 65537x1, 32769: element count / row length across 2^8, 2^15, 2^16; bool fast path and generic '
+        'path; cross and 3x3 box) judged by the same Lean driver. Non-trivial = result differs from the input '
         'or element is irregular; distinct = distinct (op,dtype,shape,data,element,layout).')
 ASSUMPTIONS = ['heights of the structuring element are non-negative (or the dtype minimum = absent)',
                'an image value equal to the dtype minimum is absorbing (-inf) under dilation, as an element entry is',
-               'dilation with an irregular element is compared with the gather definition only at pixels whose element '
-               'box and reflected box lie inside the image; elsewhere only path independence and the scatter model apply',
+               'dilation is compared with the gather definition at EVERY pixel when the members are star-shaped and flat '
+               '(C01_dilate_regular_everywhere) or star-shaped and height-monotone towards the centre (C01_dilate_height_monotone_everywhere: '
+               'pyramids, and cross/box/disk on signed dtypes where 0 entries are members of height 0); with any other element only at '
+               'pixels whose element box and reflected box lie inside the image; elsewhere only path independence and the scatter model apply',
                'array sizes < 2^31']
 EXHAUSTIVE = {'thorough': True}
 TRUSTED = ['numpy (array construction, layout views)']
@@ -157,7 +161,7 @@ def _eval_single(cases):
         res.append(dict(findings=f, nontrivial=bool(irregular or not np.array_equal(got, A)),
                         sig=lines[len(res)] + case.get('layout', 'C'),
                         tags=dict(kind=case['kind'], dtype=case['dtype'], ndim=len(case['shape']),
-                                  layout=case.get('layout', 'C'), path=path, dilate_judged=judged,
+                                  layout=case.get('layout', 'C'), path=path, dilate_judged=judged, size=case.get('size', 'small'),
                                   signed=('signed' if case['dtype'].startswith('int') else 'unsigned-or-bool'),
                                   elem=('pyarg' if 'pyarg' in case else 'empty' if not any(case['bc']) else 'larger' if any(
                                       b > s for b, s in zip(case['bshape'], case['shape'])) else 'even' if any(
@@ -382,6 +386,40 @@ def _regular_elem(rng, dtype, ndim):
     return list(Bc.shape), [int(x) for x in Bc.ravel().tolist()], pyarg
 
 
+def _threshold_cases(rng, tier):
+    """SIZE-THRESHOLD stream: a handful of images whose element count / row length crosses 2^8, 2^15, 2^16 (+-1), so that a
+    counter, index or accumulator narrowed to 8/16 bits cannot pass: 1 x 65537 and 257 x 256 (bool C-contiguous = fast path;
+    strided / uint8 / int16 = generic path), 1-D 65537 and 32769, cross (Python-level argument) and 3x3 box. Judged by the Lean
+    driver like every other case (the native driver handles 65k pixels in well under a second)."""
+    plans = [('bool', [1, 65537], 'C', 'none'), ('uint8', [1, 65537], 'strided', 'box'), ('bool', [257, 256], 'C', 'box'),
+             ('int16', [65537], 'C', 'none'), ('uint8', [257, 256], 'C', 'none'), ('int8', [32769], 'negstride', 'box'),
+             ('uint16', [256, 257], 'F', 'none'), ('bool', [65537, 1], 'C', 'box')]
+    if tier == 'quick':
+        plans = rng.sample(plans[:3], 2) + rng.sample(plans[3:], 2)
+    out = []
+    for dtype, shape, layout, el in plans:
+        lo, hi = gen.dt_range(dtype)
+        n = int(np.prod(shape))
+        if dtype == 'bool':
+            pbit = rng.choice([0.5, 0.9])
+            data = [1 if rng.random() < pbit else 0 for _ in range(n)]
+        else:
+            band = rng.choice([3, 40, hi - lo])
+            base = rng.randint(lo, hi - band)
+            data = [base + rng.randint(0, band) for _ in range(n)]
+        nd = len(shape)
+        for kind in ('erode', 'dilate'):
+            c = dict(kind=kind, dtype=dtype, shape=shape, data=data, layout=layout, size='threshold')
+            if el == 'none':
+                import mahotas as mh
+                Bc = mh.get_structuring_elem(np.zeros((3,) * nd, dtype), None)
+                c.update(bshape=list(Bc.shape), bc=[int(x) for x in Bc.ravel().tolist()], pyarg='none')
+            else:
+                c.update(bshape=[3] * nd, bc=[1] * 3 ** nd)
+            out.append(c)
+    return out
+
+
 def cases(rng, tier):
     out = list(_corpus()) if tier != 'search' else []
     nrand = dict(quick=2500, thorough=30000, search=12000)[tier]
@@ -424,6 +462,7 @@ def cases(rng, tier):
             if rng.random() < 0.25:
                 c['bc_layout'] = rng.choice(['F', 'strided', 'negstride', 'transposed', 'readonly'])
         out.append(c)
+    out.extend(_threshold_cases(rng, tier))
     out.extend(_getse_cases(rng, tier))
     return out
 
